@@ -8,6 +8,7 @@ import pandas as pd
 
 from ..sim import market_builder, op, amount, HarnessError, AMOUNT_RESOLVERS
 from ..canon import D
+from . import helpers as LH  # registers the op lib.read_helpers
 
 from demeter import MarketInfo, TokenInfo
 from demeter.broker import MarketTypeEnum
@@ -411,7 +412,9 @@ def random_uni_read(rp, mw, cur_tick):
     """One read-only call of the market's public API (reads are operations too: they must not change any state, the
     process-wide Decimal context included)."""
     sp = spacing_of(mw["fee"])
-    kind = rp.choice(["balance", "position_status", "estimate_liquidity", "estimate_liquidity", "estimate_amount", "price_to_tick", "tick_to_price"])
+    kind = rp.choice(["balance", "position_status", "estimate_liquidity", "estimate_liquidity", "estimate_amount", "price_to_tick", "tick_to_price", "library"])
+    if kind == "library":  # module-level helper functions (range finder, greeks, indicators, metrics, formatting ...)
+        return {"op": "lib.read_helpers", "a": {"which": LH.pick(rp)}, "m": mw["name"]}
     lo = (int(cur_tick) // sp) * sp - rp.randint(1, 8) * sp
     hi = lo + rp.randint(2, 20) * sp
     if kind == "balance":
